@@ -152,6 +152,9 @@ func genHist(g *G, n int, out io.Writer) {
 		kinds = append(kinds, "lexical-info", "lexical-noinfo", "lexical-info", "lexical-noinfo")
 		pool = append(pool, "[]", "{\"@id\":\"http://a\",\"@type\":5}", "{ not json", "")
 		kinds = append(kinds, "empty", "jsonld-reject", "undecodable", "empty-text")
+		// a readable first value followed by more text (a second document, a stray bracket, padding): read like the first value alone
+		pool = append(pool, pool[0]+"\n"+pool[1], pool[1]+" ]", pool[2]+"\x00", "[] trailing words")
+		kinds = append(kinds, "graph-trailing", "graph-trailing", "graph-trailing", "graph-trailing")
 		// long unreadable documents whose tail, read on its own, would be a JSON value; and blank/truncated ones
 		long1 := "{\"a\": tru" + strings.Repeat(" ", 300+g.n(900)) + "[]" + strings.Repeat(" ", g.n(700)) + " {} "
 		long2 := "#%RAML 1.0\ntitle: api\n" + strings.Repeat("# padding line\n", 30+g.n(80)) + "example: {\"@id\": \"http://x\"}\n" + strings.Repeat("x", g.n(900)) + "\n[]\n"
